@@ -176,6 +176,14 @@ Definition handshakegw_obs (sc tok : bool) (body : bytes) : bytes :=
   let raws := List.concat (map (fun e => match e with Resp _ _ raw => [hex raw] | _ => [] end) (run c items)) in
   str "R=" ++ dash raws ++ str " X=" ++ b01 (Nat.ltb (consumed c items) 2).
 
+(** [tunnelauthgw] (C16) cases: handshake, tunnel create, tunnel authorization against the real binary. *)
+Definition tunnelauthgw_obs (redir : redirect_flags) (idle : Z) (pkts : list bytes) : bytes :=
+  let c := {| c_token_auth := false; c_smartcard := false; c_cookie_cb := false; c_name_cb := false; c_host_cb := true;
+              c_redir := redir; c_idle := idle |} in
+  let a := {| a_cookie := true; a_name := true; a_host := true; a_dial := true |} in
+  let items := map (fun p => RData p a) pkts ++ [RErr] in
+  join [x2c] (List.concat (map (fun e => match e with Resp _ _ raw => [hex raw] | _ => [] end) (run c items))).
+
 (** [ntlm] (C14) cases: histories over the symbolic verifier. *)
 From RDPGW Require Import Model.Ntlm.
 
